@@ -1489,7 +1489,7 @@ class FuncExecute(ValueFunc):
 
         try:
             return self.runProgram(program, arglist, work_dir, output_file)
-        except OSError:
+        except (OSError, ValueError):
             raise CklRuntimeError(
                 ValueString("ERROR"), "Cannot execute " + program, pos
             )
@@ -1576,7 +1576,7 @@ class FuncFileCopy(ValueFunc):
         dest = args.getString("dest").value
         try:
             shutil.copy2(src, dest)
-        except OSError:
+        except (OSError, ValueError):
             raise CklRuntimeError(
                 ValueString("ERROR"), "Cannot copy file " + src, pos
             )
@@ -1682,7 +1682,7 @@ class FuncFileMove(ValueFunc):
         dest = args.getString("dest").value
         try:
             os.rename(src, dest)
-        except OSError:
+        except (OSError, ValueError):
             raise CklRuntimeError(
                 ValueString("ERROR"), "Cannot move file " + src, pos
             )
@@ -2493,7 +2493,7 @@ class FuncListDir(ValueFunc):
             self.collectFiles(
                 directory, recursive, include_path, include_dirs, result
             )
-        except OSError:
+        except (OSError, ValueError):
             raise CklRuntimeError(
                 ValueString("ERROR"),
                 "Cannot list directory " + directory,
